@@ -22,6 +22,8 @@ mod extract;
 mod c01;
 mod c02;
 mod tables;
+mod lexcases;
+mod c20;
 
 fn main() {
     util::silence_panics();
@@ -88,6 +90,7 @@ fn main() {
                 "C17" => c17::run(&params),
                 "C01" => c01::run(&params),
                 "C02" => c02::run(&params),
+                "C20" => c20::run(&params),
                 _ => { eprintln!("unknown property {}", id); std::process::exit(2); }
             };
             // the witnesses of this property run as part of every check (regression corpus)
